@@ -1063,5 +1063,34 @@ def run(ctx):
     ]
 
 
+def _own_group():
+    """put the check into its own process group and make sure the whole group (pool workers,
+    TLC JVMs) is gone when the check ends, however it ends.  (The children that run pycdlib are
+    in groups of their own, are killed by their parent at a deadline, and die with it.)"""
+    import atexit
+    try:
+        os.setpgid(0, 0)
+    except OSError:
+        pass
+    if os.getpgrp() != os.getpid():
+        return
+
+    def reap(*_):
+        signal.signal(signal.SIGTERM, signal.SIG_IGN)
+        try:
+            os.killpg(os.getpid(), signal.SIGTERM)
+        except OSError:
+            pass
+
+    def on_signal(signum, _frame):
+        reap()
+        os._exit(128 + signum)
+    atexit.register(reap)
+    signal.signal(signal.SIGTERM, on_signal)
+    signal.signal(signal.SIGINT, on_signal)
+    signal.signal(signal.SIGHUP, on_signal)
+
+
 if __name__ == '__main__':
+    _own_group()
     sys.exit(checklib.main('C15', 'fault_enumeration', run))
